@@ -21,6 +21,11 @@
      ElementWithClasses(cont,items) generator hoists RenderCSSItems([]any{expr...}) in front of the element;
                                     the class attribute is CSSClasses(...).String() (cssProcessor)
      ElementWithClassAndOn(k,s)     both hoisted groups: css items, then script items, then the element
+     ElementWithCondOn(cond,a,b)    <button if cond { onclick={ a } } else { onmouseover={ b } }>: a conditional attribute is
+                                    evaluated inside the start tag, so the generator hoists the scripts of BOTH arms
+                                    (getAttributeScripts: Then and Else) in front of the element; only the taken arm is a use
+     ElementWithCondClass(cond,k,l) <div if cond { class={ k } } else { class={ l } }>: the css items of both arms are hoisted
+                                    (writeAttributesCSS: Then, then Else), the class attribute of the taken arm is written
      OnceWithBlock(h) / OnceWithComponent(g)     once.go
      StylesheetRequest              CSSHandler.ServeHTTP
      SetNonce(c)                    ctx = templ.WithNonce(ctx, nonce) at this point of the history (a nonce middleware
@@ -51,6 +56,7 @@ CONSTANTS Ctxs,          \* context names (a sequence, e.g. <<"c1","c2">>)
           ClassExprs,    \* class expressions: [cont |-> container, items |-> Seq([f, k, b])]
           Repaired,      \* subset of {"KvCompName", "SliceKVRules"}
           Variant,       \* "asCoded" | "sharedKeys" | "noRecord" | "packageState" | "mwInlines" | "nonceForgets"
+                         \* | "elseNotHoisted" (the else-arm of a conditional attribute is not collected for hoisting)
                          \* | "onceKeyedById" (rendered handles remembered by OnceHandle.id instead of by address)
           MaxNonces,     \* how often WithNonce may be applied to one context
           NonceCtxs,     \* the contexts WithNonce may be applied to (emission B: one of the two, all mode pairs are explored)
@@ -157,7 +163,7 @@ Use(c, name, args, toks, rec, must, tags) ==
                must |-> SetToSeq(must), mustbody |-> SetToSeq(mustbody), tags |-> SetToSeq(tags),
                viol |-> SetToSeq(Violations(toks, before, must, mustbody, c)), nonce |-> nonce[c]]
 
-NoArgs == [s |-> "", S |-> <<>>, e |-> [cont |-> "", items |-> <<>>], k |-> "", h |-> ""]
+NoArgs == [s |-> "", S |-> <<>>, e |-> [cont |-> "", items |-> <<>>], k |-> "", h |-> "", t |-> "", cond |-> FALSE]
 
 RenderScriptComponent(c, s) ==
     LET new == NewOf(<<s>>, 1, emitted[c]) IN
@@ -178,6 +184,20 @@ ElementWithClassAndOn(c, k, s) ==
         news == NewOf(<<s>>, 1, emitted[c] \cup KeysOf(newk))
     IN  Use(c, "ElementWithClassAndOn", [NoArgs EXCEPT !.k = k, !.s = s],
             Defs(newk) \o Defs(news) \o <<Tok("use", k), Tok("use", s)>>, KeysOf(newk) \cup RecordScripts({}, news), {k, s}, {})
+
+\* a script / class use in the then-arm (a, cond TRUE) or else-arm (b, cond FALSE) of a conditional attribute
+CondHoist(a, b) == IF Variant = "elseNotHoisted" THEN <<a>> ELSE <<a, b>>
+ElementWithCondOn(c, cond, a, b) ==
+    LET new == NewOf(CondHoist(a, b), 1, emitted[c])
+        taken == IF cond THEN a ELSE b
+    IN  Use(c, "ElementWithCondOn", [NoArgs EXCEPT !.s = a, !.t = b, !.cond = cond],
+            Defs(new) \o <<Tok("use", taken)>>, RecordScripts({}, new), {taken}, {})
+
+ElementWithCondClass(c, cond, a, b) ==
+    LET new == NewOf(CondHoist(a, b), 1, emitted[c])
+        taken == IF cond THEN a ELSE b
+    IN  Use(c, "ElementWithCondClass", [NoArgs EXCEPT !.k = a, !.t = b, !.cond = cond],
+            Defs(new) \o <<Tok("use", taken)>>, KeysOf(new), {taken}, {})
 
 \* once.go: rendered before -> nothing; else mark, then render the block / the fixed component
 Once(c, name, h) ==
@@ -211,6 +231,8 @@ Next == \/ \E c \in CtxSet :
             \/ \E S \in OnSeqs : ElementWithOnAttrs(c, S)
             \/ \E e \in ClassExprs : ElementWithClasses(c, e)
             \/ \E k \in Classes, s \in Scripts : ElementWithClassAndOn(c, k, s)
+            \/ \E cond \in BOOLEAN, a \in Scripts, b \in Scripts : ElementWithCondOn(c, cond, a, b)
+            \/ \E cond \in BOOLEAN, a \in Classes, b \in Classes : ElementWithCondClass(c, cond, a, b)
             \/ \E h \in BlockHandles \cup ZeroHandles : Once(c, "OnceWithBlock", h)
             \/ \E h \in FixedHandles : Once(c, "OnceWithComponent", h)
             \/ SetNonce(c)
